@@ -1,6 +1,8 @@
 // textrec records calls of the real text conversions for the TLC record oracles in specs/text:
-//   textrec <out.ndjson> <seed> <count> droplet   droplet.FromString / droplet.ToString (C30)
-//   textrec <out.ndjson> <seed> <count> base58    base58.Encode / Decode, cipher address text (C15)
+//
+//	textrec <out.ndjson> <seed> <count> droplet   droplet.FromString / droplet.ToString (C30)
+//	textrec <out.ndjson> <seed> <count> base58    base58.Encode / Decode, cipher address text (C15)
+//
 // One JSON record per call.  Texts are logged as arrays of byte values, amounts as decimal digit arrays.
 package main
 
